@@ -132,7 +132,12 @@ class _FunctionCall(object):
             # this reconstruction is quite costly. I wonder whether it's a
             # problem though.
 
-            _type_info = ctx.descriptor.in_message._type_info
+            in_message = ctx.descriptor.in_message
+            _type_info = in_message._type_info
+            if issubclass(in_message, ComplexModelBase):
+                # the argument class of a bare method can have parents
+                _type_info = in_message.get_flat_type_info(in_message)
+
             ctx.in_object = [None] * len(_type_info)
             for i in range(len(args)):
                 ctx.in_object[i] = args[i]
@@ -143,7 +148,7 @@ class _FunctionCall(object):
                     ctx.in_object[i] = val
 
             if ctx.descriptor.body_style == BODY_STYLE_BARE:
-                ctx.in_object = ctx.descriptor.in_message \
+                ctx.in_object = in_message \
                                       .get_serialization_instance(ctx.in_object)
 
             if cnt == 0:
